@@ -9,7 +9,7 @@ Ltac zcase a b := destruct (Z.eqb_spec a b); subst.
 
 Lemma raw_set_bounds_Inv s r l u : Inv s -> Inv (raw_set_bounds r l u s).
 Proof.
-  intros [A B C D E G H I J]. unfold raw_set_bounds, update_variable_bounds. cbn [rin set_lbub].
+  intros [A B C D E G H I J K]. unfold raw_set_bounds, update_variable_bounds. cbn [rin set_lbub].
   destruct (rin s r) eqn:Er.
   - cbn [lb ub set_lbub]. rewrite !upd_same.
     destruct (split_bounds l u) as [[fl fu] [rl ru]] eqn:Es.
@@ -47,7 +47,7 @@ Proof.
 Qed.
 
 Lemma set_odir_Inv s d : Inv s -> Inv (set_odir s d).
-Proof. intros [A B C D E G H I J]. constructor; cbn; assumption. Qed.
+Proof. intros [A B C D E G H I J K]. constructor; cbn; assumption. Qed.
 Lemma set_dir_Inv s d : Inv s -> Inv (set_dir d s).
 Proof.
   intros HI. unfold set_dir. destruct (in_ctx s && Bool.eqb (odir s) d); [exact HI|].
@@ -59,7 +59,7 @@ Proof. apply Qc_is_canon. reflexivity. Qed.
 
 Lemma set_oc_zero_Inv s : Inv s -> Inv (set_oc s (fun _ => q0)).
 Proof.
-  intros [A B C D E G H I J]. constructor; cbn; try assumption.
+  intros [A B C D E G H I J K]. constructor; cbn; try assumption.
   intros r. split; [symmetry; apply opp_q0|reflexivity].
 Qed.
 
@@ -67,7 +67,7 @@ Lemma set_obj_loop_Inv l : forall s, Inv s -> Inv (fst (set_obj_loop l s)).
 Proof.
   induction l as [|[r c] l IH]; intros s HI; cbn [set_obj_loop]; [exact HI|].
   destruct (rin s r) eqn:Er; [|exact HI].
-  apply IH. destruct HI as [A B C D E G H I J]. constructor; cbn; try assumption.
+  apply IH. destruct HI as [A B C D E G H I J K]. constructor; cbn; try assumption.
   intros r0. names. destruct (Z.eqb_spec r0 r) as [->|Hne].
   - split; [reflexivity|congruence].
   - apply E.
